@@ -11,7 +11,7 @@ CONSTANTS
   ThrVals = {}
   CpuCounts = {0, 1}
   CpuPcts = {50, 100}
-  Cores = {0, 1, 2}
+  Cores = {0, 1}
   OtherVals = {TRUE}
   Paths = {"direct"}
 VIEW View
